@@ -239,6 +239,33 @@ def key_preserving_copy(m: SharedModel, fi: FuncInfo, target: ast.Subscript, val
     return isinstance(first, ast.Name) and isinstance(value.key, ast.Name) and value.key.id == first.id
 
 
+def replacement_verdict(m: SharedModel, fi: FuncInfo, target: ast.Subscript, value: ast.AST) -> str:
+    """'copy': the stored value is a key-preserving copy of what was there (one level, or elementwise for a slice / slice object);
+    'other': positively something else (an empty or filtered dict, a copy of another level, a literal); 'unknown' otherwise."""
+    if key_preserving_copy(m, fi, target, value):
+        return "copy"
+    # elementwise:  cache[S] = [copy(level) for level in cache[S]]
+    if isinstance(value, (ast.ListComp, ast.GeneratorExp)) and len(value.generators) == 1 and not value.generators[0].ifs and isinstance(value.generators[0].target, ast.Name) \
+            and unparse(value.generators[0].iter) == unparse(target):
+        v = value.generators[0].target.id
+        fake_target = ast.parse(v, mode="eval").body
+        if key_preserving_copy(m, fi, fake_target, value.elt):
+            return "copy"
+        return "unknown"
+    if isinstance(value, ast.Dict) and not value.keys:
+        return "other"
+    if isinstance(value, (ast.List, ast.Tuple)) and not value.elts:
+        return "other"
+    if isinstance(value, ast.DictComp) and len(value.generators) == 1:
+        g = value.generators[0]
+        src = g.iter.func.value if isinstance(g.iter, ast.Call) and isinstance(g.iter.func, ast.Attribute) and g.iter.func.attr in ("keys", "items") else g.iter
+        if g.ifs and unparse(src) == unparse(target):
+            return "other"  # a filtered copy loses members
+        if isinstance(src, ast.Subscript) and isinstance(target, ast.Subscript) and unparse(src.value) == unparse(target.value) and unparse(src) != unparse(target) and not g.ifs:
+            return "other"  # a copy of a different level
+    return "unknown"
+
+
 def rule_p1_p2(ctx: Ctx, m: SharedModel, rule_p1: str, rule_p2: str) -> None:
     for s in m.sites:
         if s.kind == ELEM:
@@ -261,13 +288,18 @@ def rule_p1_p2(ctx: Ctx, m: SharedModel, rule_p1: str, rule_p2: str) -> None:
         elif s.kind == FIELD:
             if s.op in GROWTH:
                 ctx.ok(rule_p2, s.fi.where, f"cache list grows by {s.op}", s.stmt, s.fi)
-            elif s.op == "store" and isinstance(s.stmt, ast.Assign) and isinstance(s.node, ast.Subscript):
-                if key_preserving_copy(m, s.fi, s.node, s.stmt.value):
-                    ctx.ok(rule_p2, s.fi.where, "a level is replaced by a key-preserving copy (compaction)", s.stmt, s.fi)
-                else:
+            elif s.op in ("store", "slice-store") and isinstance(s.stmt, ast.Assign) and isinstance(s.node, ast.Subscript):
+                verdict = replacement_verdict(m, s.fi, s.node, s.stmt.value)
+                if verdict == "copy":
+                    ctx.ok(rule_p2, s.fi.where, "levels are replaced by key-preserving copies (compaction)", s.stmt, s.fi)
+                elif verdict == "other":
                     ctx.violation(rule_p2, s.fi, s.stmt, f"a published level is replaced by `{unparse(s.stmt.value)[:70]}`, which is not a key-preserving copy of the same level: going back to that length would see a different set")
-            else:
+                else:
+                    raise AnalysisError(f"{s.fi.where}: `{unparse(s.stmt)[:80]}` replaces published levels; whether the replacement keeps their key sets is not recognised")
+            elif s.op in ("del", "pop", "clear", "remove", "insert", "reverse", "sort"):
                 ctx.violation(rule_p2, s.fi, s.stmt, f"the cache list is not monotone: {s.target} {s.op}")
+            else:
+                raise AnalysisError(f"{s.fi.where}: `{unparse(s.stmt)[:80]}` changes the cache list ({s.op}); monotonicity not decided")
 
 
 def publication_of(m: SharedModel, fi: FuncInfo, name: str) -> Optional[ast.stmt]:
